@@ -51,6 +51,11 @@ def canon(x, _depth=0):
     if isinstance(x, (int, np.integer)):
         return ("i", int(x))
     if isinstance(x, (float, np.floating)):
+        # scalars inside structures compare by value, as lru_cache keys do (0 == 0.0 == -0.0);
+        # bulk data (ndarray) is compared bit for bit below
+        xf = float(x)
+        if xf == int(xf) if np.isfinite(xf) else False:
+            return ("i", int(xf))
         return ("f", np.float64(x).tobytes().hex())
     if isinstance(x, (complex, np.complexfloating)):
         return ("c", np.complex128(x).tobytes().hex())
